@@ -71,7 +71,8 @@ def gen_sequence(rng):
 
 
 def collision_knobs(rng):
-    pool = rng.choice([["init", "Init", "INIT", "solve"], ["a", "A", "b"], ["alpha", "Alpha", "beta", "gamma"]])
+    pool = rng.choice([["init", "Init", "INIT", "solve"], ["a", "A", "b"], ["alpha", "Alpha", "beta", "gamma"],
+                       ["n", "N", "n_2", "n_3", "n2"], ["x", "x_2", "X_2", "x2", "x__2"]])
     return {"names": G.default_names(pool), "nfiles": rng.choice([2, 3, 4, 5]),
             "dirs": rng.choice([["src"], ["src", "src/sub1", "src/sub2"]]),
             "filename": (lambda r, i: r.choice(["x.f90", "X.f90", f"f{i}.f90", "y.F90", "y.f90"])),
@@ -185,6 +186,24 @@ def end_to_end(chk, rng, nproj):
             if dups:
                 chk.violation("failing-input", {"what": "two entities share an anchor", "anchors": dups,
                                                 "files": files}, True)
+            # (3b) the same for the anchors FORD really emits (FortranBase.anchor), which the model's
+            #      "<obj>-<quote(ident)>" only predicts: distinct page-less entities never share one
+            real = collections.defaultdict(set)
+            for (i, d, n, r, obj) in log5:
+                ent = items.get(i)
+                if d == "None" and ent is not None:
+                    try:
+                        real[str(ent.anchor)].add(i)
+                    except Exception as e:  # noqa
+                        real[f"EXC:{type(e).__name__}"].add(i)
+            rdups = {a: len(es) for a, es in real.items() if len(es) > 1}
+            if rdups:
+                chk.violation("failing-input", {"what": "two distinct entities without a page of their own are given "
+                                                "the same anchor id", "anchors": rdups, "files": files}, True)
+            odd = sorted(a for a in real if a not in anchors)
+            if odd:
+                chk.violation("broken-correspondence", {"what": "FortranBase.anchor is not <obj>-<quote(ident)>",
+                                                        "anchors": odd[:10], "files": files}, False)
             # (4) copied sources: out/src/<name> must hold the file that defines the entity
             byname = collections.defaultdict(list)
             for rel in files:
